@@ -86,6 +86,33 @@ func generated(rng *lib.Rng) []Prog {
 	add("gotype-togo-map-colliding", `(def o (c20outer tag:"x" m:(hash a:1.5 "a":2.5 b:3.5 "b":4.5 c:5.5 "c":6.5))) (togo o)`, "site:jsonmsgp.go:SexpToGoStructs", "colliding-keys")
 	add("gotype-togo-map-badkeys", `(def o (c20outer tag:"x" m:(hash 1 1.5 2 2.5 3 3.5 4 4.5))) (togo o)`, "site:jsonmsgp.go:SexpToGoStructs", "error-candidates")
 	add("gotype-togo-map-badvals", `(def o (c20outer tag:"x" s:(hash a:1 b:2 c:3 d:4))) (togo o)`, "site:jsonmsgp.go:SexpToGoStructs", "error-candidates")
+	// every script-level route that COPIES a hash/record: derefSet of a whole record through a pointer
+	// (functions.go:DerefFunction -> SexpHash.CloneFrom -> CopyMap), then everything that walks the copy
+	walkIt := `[(str w) (keys w) (raw2str (json w)) (str (hpair w 0)) (str (hpair w 1)) (len w) (msgpack w)]`
+	add("derefset-demo-record", `(def w (hornet speed:1 nickname:"x" mass:0.5 SpanCm:1)) (def pw (& w)) (derefSet pw (hornet speed:567 nickname:"Bob" mass:4.2 SpanCm:8877)) `+walkIt, "site:hashutils.go:CloneFrom", "site:hashutils.go:CopyMap", "hash-copy")
+	add("derefset-demo-record-fresh", `(def w (hornet)) (def pw (& w)) (derefSet pw (hornet speed:567 nickname:"Bob" mass:4.2 SpanCm:8877)) `+walkIt, "site:hashutils.go:CloneFrom", "site:hashutils.go:CopyMap", "hash-copy")
+	add("derefset-demo-record-range", `(def w (snoopy cry:"a")) (def pw (& w)) (derefSet pw (snoopy cry:"yeah" pack:[1 2 3] speed:7 id:3 SpanCm:9)) (def acc []) (range k v w (set acc (append acc k))) [acc (str (deref pw)) (togo w)]`, "site:hashutils.go:CloneFrom", "hash-copy")
+	add("derefset-demo-record-source-intact", `(def src (weather type:"fine" size:3 time:nil)) (def w (weather type:"x")) (def pw (& w)) (derefSet pw src) (hset src (quote size) 4) [(str w) (str src) (keys w) (keys src)]`, "site:hashutils.go:CloneFrom", "hash-copy")
+	add("derefset-user-struct", `(struct Bike [(field Make: string e:0) (field Year: int64 e:1) (field Miles: float64 e:2) (field Owner: string e:3)]) (def b (Bike Make:"a")) (def pb (& b)) (derefSet pb (Bike Make:"vw" Year:1970 Miles:1.5 Owner:"me")) [(str b) (keys b) (raw2str (json b))]`, "site:hashutils.go:CloneFrom", "hash-copy", "registry")
+	add("derefset-twice", `(def w (hornet speed:1)) (def pw (& w)) (derefSet pw (hornet speed:2 nickname:"a" mass:1.5)) (derefSet pw (hornet mass:2.5 SpanCm:3 nickname:"b" speed:9)) [(str w) (keys w)]`, "site:hashutils.go:CloneFrom", "hash-copy")
+	// errors with SEVERAL offenders: whichever is reported must be the same in every run
+	tf := "(func trundle [a:int64 b:string c:float64] [n:int64 err:error] { (return 1 nil) }) "
+	add("error-named-args-unknown", tf+`(trundle speed:1 b:"hi" weight:3 colour:"red" zeta:5 a:2)`, "error-candidates", "multi-offender")
+	add("error-named-args-missing", tf+`(trundle b:"hi")`, "error-candidates", "multi-offender")
+	add("error-named-args-illtyped", tf+`(trundle a:"x" b:3 c:"y")`, "error-candidates", "multi-offender")
+	add("error-struct-illtyped-fields", `(struct Boat [(field Make: string e:0) (field Year: int64 e:1) (field Miles: float64 e:2)]) (Boat Year:"x" Make:12 Miles:"y")`, "error-candidates", "multi-offender", "registry")
+	add("error-struct-unknown-fields", `(struct Boat2 [(field Make: string e:0)]) (Boat2 Zz:1 Yy:2 Xx:3 Ww:4)`, "error-candidates", "multi-offender", "registry")
+	add("error-record-illtyped-togo", `(togo (snoopy cry:12 pack:"no" speed:"fast" id:"seven"))`, "error-candidates", "multi-offender", "site:jsonmsgp.go:SexpToGoStructs")
+	add("error-undefined-several", `(defn f [] (list undefined_a undefined_b undefined_c)) (f)`, "error-candidates", "multi-offender")
+	// decoded objects whose field names the interpreter has never seen (they occur only inside raw text):
+	// the symbol numbers the decoder gives them, with and without a zKeyOrder member
+	dec := func(id, obj string) {
+		add("decode-new-names-"+id, "(def d (unjson (raw `"+obj+"`))) (def ks (keys d)) [(str d) (symnum (aget ks 0)) (symnum (aget ks 1)) (symnum (aget ks 2)) (symnum (aget ks 3)) (< (aget ks 0) (aget ks 1)) (< (aget ks 2) (aget ks 3)) (symnum (quote afterwards))]", "site:jsonmsgp.go:decodeGoToSexpHelper", "site:jsonmsgp.go:makeSortedSlicesFromMap", "decode-intern-order")
+	}
+	dec("plain", `{"qqd":4,"qqa":1,"qqc":3,"qqb":2}`)
+	dec("zkeyorder", `{"Atype":"hash","qqd":4,"qqa":1,"qqc":3,"qqb":2,"zKeyOrder":["qqd","qqa","qqc","qqb"]}`)
+	dec("zkeyorder-nested", `{"Atype":"hash","rrd":{"Atype":"hash","ssb":1,"ssa":2,"zKeyOrder":["ssb","ssa"]},"rra":1,"rrc":3,"rrb":2,"zKeyOrder":["rrd","rra","rrc","rrb"]}`)
+	add("decode-new-names-msgpack", "(def d (unmsgpack (msgpack (unjson (raw `{\"Atype\":\"hash\",\"ttd\":4,\"tta\":1,\"ttc\":3,\"ttb\":2,\"zKeyOrder\":[\"ttd\",\"tta\",\"ttc\",\"ttb\"]}`))))) (def ks (keys d)) [(str d) (symnum (aget ks 0)) (symnum (aget ks 1)) (symnum (aget ks 2)) (symnum (quote afterwards))]", "site:jsonmsgp.go:decodeGoToSexpHelper", "decode-intern-order")
 	add("record-unknown-field", `(snoopy nosuchfield:1 alsonot:2 third:3)`, "error-candidates")
 	add("record-unknown-fields-togo", `(def s (snoopy cry:"a")) (hset s (quote zzz) 1) (hset s (quote yyy) 2) (hset s (quote xxx) 3) (togo s)`, "site:jsonmsgp.go:SexpToGoStructs", "error-candidates")
 	add("record-no-method", `(_method (snoopy) NoSuchMethod:)`, "error-candidates")
